@@ -171,6 +171,19 @@ def handle (j : Json) : Json :=
       ("valid", Json.bool t.valid), ("wt", Json.bool (wt t v)), ("dyn", Json.bool (isDyn t)), ("head", headSize t),
       ("enc", toHex e), ("dec_enc", optValToJson (dec t e)),
       ("dec_hex", optValToJson (dec t (ofHex (jstr (jfield j "hex")))))]
+  | "cands" =>
+    -- {"op":"cands","regs":[[[sym,[n..]]..]..],"probe":sym} -> {"branches":[n..]|null,"registered":[sym..]}
+    let regs : List (List DynParam) := (jarr (jfield j "regs")).map (fun r => (jarr r).map (fun d =>
+      match jarr d with
+      | [n, l] => ⟨⟨jstr n, "", 0⟩, (jarr l).map jnat⟩
+      | _ => ⟨⟨"", "", 0⟩, []⟩))
+    let c : Candidates := regs.foldl processDynParams (fun _ => none)
+    let probe : SymId := ⟨jstr (jfield j "probe"), "", 0⟩
+    let out := calldataloadSym (fun _ => none) c probe
+    let allSyms := (regs.flatMap (fun r => r.map (fun (d : DynParam) => d.sizeSymbol.pname))).eraseDups
+    Json.mkObj [
+      ("branches", if out == [none] then Json.null else Json.arr (out.filterMap (fun o => o.map (fun (n : Nat) => (n : Json)))).toArray),
+      ("registered", Json.arr ((allSyms.filter (fun n => (c ⟨n, "", 0⟩).isSome)).map Json.str).toArray)]
   | "dec" =>
     Json.mkObj [("dec", optValToJson (dec (tyOfJson (jfield j "ty")) (ofHex (jstr (jfield j "hex")))))]
   | _ => Json.str "bad-op"
